@@ -105,3 +105,11 @@ func verifFormatParse(d Decimal, verb byte) (Decimal, error, bool) {
 	eq := v.Equal(d)
 	return v, err, eq
 }
+
+// verifCanonical: Canonical applied once and twice, compared with the operand.
+func verifCanonical(d Decimal) (Decimal, Decimal, bool) {
+	c := d.Canonical()
+	cc := c.Canonical()
+	eq := c.Equal(d)
+	return c, cc, eq
+}
